@@ -28,6 +28,10 @@ func TestMain(m *testing.M) { fix.Main(m) }
 type Case struct {
 	Input  string
 	Source string
+	// More: further inputs parsed after Input while the caller still holds the
+	// tree returned for Input (source "retain"): that tree must still be the
+	// one the grammar prescribes for Input afterwards.
+	More []string
 }
 
 func (c *Case) Summary() string {
@@ -142,7 +146,35 @@ func clip(s string, n int) string {
 	return s
 }
 
+// retained: the tree ParseQuery returned for the first input is looked at
+// again after the other inputs have been parsed.
+func retained(c *Case) error {
+	want, rej := qref.Parse(c.Input)
+	if rej != nil {
+		return nil
+	}
+	var first *pb.Query
+	if err := fix.Safe(func() error { var e error; first, e = queryparser.ParseQuery(c.Input); return e }); err != nil {
+		return fmt.Errorf("sentence rejected: %v", err)
+	}
+	for _, m := range c.More {
+		fix.Safe(func() error { _, e := queryparser.ParseQuery(m); return e })
+	}
+	if !proto.Equal(first, want) {
+		return fmt.Errorf("the tree returned for the first input was changed by parsing %d further inputs:\n now  %s\n want %s", len(c.More), qref.QueryString(first), qref.QueryString(want))
+	}
+	return nil
+}
+
 func run(t interface{ Fatalf(string, ...any) }, c *Case) {
+	if c.Source == "retain" {
+		err := retained(c)
+		evid.Case(len(c.More) > 0 && strings.Contains(c.Input, `""`), c.Summary()+fmt.Sprintf(" then %d more inputs", len(c.More)), "source:retain")
+		if err != nil {
+			fix.Fail(t, prop, "parse", c, c.Summary(), err)
+		}
+		return
+	}
 	class, err := check(c.Input)
 	toks, _ := qref.Tokenize(c.Input)
 	nt := false
@@ -315,6 +347,26 @@ func drawValid(t *rapid.T) *Case {
 	return &Case{Input: s, Source: "grammar"}
 }
 
+// drawRetain: a sentence with values that need unescaping, then a few more
+// sentences of the same kind (whatever the parser reuses between calls must
+// not be what the first tree points into).
+func drawRetain(t *rapid.T) *Case {
+	one := func() string {
+		toks, _ := genSentence(t)
+		for i := range toks {
+			if strings.HasPrefix(toks[i], `"`) && rapid.IntRange(0, 2).Draw(t, "esc") > 0 {
+				toks[i] = quote(rapid.SampledFrom([]string{`a"b`, `"`, `""`, `say "hi" twice "ok"`, `x"`, `"y`, strings.Repeat(`q"`, 40)}).Draw(t, "escval"))
+			}
+		}
+		return join(t, toks)
+	}
+	c := &Case{Input: one(), Source: "retain"}
+	for i, n := 0, rapid.IntRange(1, 5).Draw(t, "nmore"); i < n; i++ {
+		c.More = append(c.More, one())
+	}
+	return c
+}
+
 func drawMutated(t *rapid.T) *Case {
 	toks, _ := genSentence(t)
 	return &Case{Input: join(t, mutate(t, toks)), Source: "mutated"}
@@ -404,6 +456,9 @@ func replay(cf *evid.CaseFile) error {
 	if err := evid.Decode(cf.Gob, &c); err != nil {
 		return err
 	}
+	if c.Source == "retain" {
+		return retained(&c)
+	}
 	if c.Source == "concurrent" {
 		return fmt.Errorf("a failure of the concurrent sub-check has no single-input replay; re-run ./check C09 quick")
 	}
@@ -429,6 +484,7 @@ func TestQuick(t *testing.T) {
 // extra: the sub-checks that are about sequences of calls rather than one input.
 func extra(t *testing.T, scale int) {
 	fix.Check(t, "wrap-placeholder", 400*scale, func(rt *rapid.T) { run(rt, drawWrapPlaceholder(rt)) })
+	fix.Check(t, "retain", 600*scale, func(rt *rapid.T) { run(rt, drawRetain(rt)) })
 	fix.Check(t, "twins", 400*scale, func(rt *rapid.T) {
 		base := drawTwinBase(rt)
 		run(rt, &Case{Input: base, Source: "twin-base"})
